@@ -466,6 +466,15 @@ impl Check for C19 {
                     }
                 }
                 if which == "js" {
+                    // closure of the JavaScript module is decided by evaluating it under module
+                    // rules (C17's interpreter): a name used before its declaration, declared
+                    // twice or never declared is an evaluation error
+                    let mut scratch = Ctx::new(ctx.tier, ctx.strict);
+                    if let Outcome::Fail(fl) = crate::checks::c17::check_program(&text_a, &mut scratch) {
+                        if fl.sig.starts_with("js:evaluation-error") || fl.sig.starts_with("js:lexical-error") {
+                            return Outcome::Fail(Failure::new("js:names-not-closed", format!("{}\n--- program ---\n{text_a}", fl.msg)));
+                        }
+                    }
                     // every method name occurs as a string key
                     let strs: Vec<String> = without_comments(&ta).into_iter().filter_map(|t| if let T::Str(s) = t { Some(s) } else { None }).collect();
                     for m in &methods {
